@@ -159,6 +159,10 @@ var (
 // ConstructCredential creates a credential using the IssueSignatureMessage from
 // the issuer and the content of the attributes.
 func (b *CredentialBuilder) ConstructCredential(msg *IssueSignatureMessage, attributes []*big.Int) (*Credential, error) {
+	if msg == nil || msg.Proof == nil || msg.Proof.C == nil || msg.Proof.EResponse == nil ||
+		msg.Signature == nil || msg.Signature.A == nil || msg.Signature.E == nil || msg.Signature.V == nil {
+		return nil, errors.New("incomplete IssueSignatureMessage")
+	}
 	if !msg.Proof.Verify(b.pk, msg.Signature, b.context, b.nonce2) {
 		return nil, ErrIncorrectProofOfSignatureCorrectness
 	}
@@ -181,6 +185,9 @@ func (b *CredentialBuilder) ConstructCredential(msg *IssueSignatureMessage, attr
 		}
 		if ms[i] != nil {
 			return nil, errors.New("attribute at random blind index should be nil before issuance")
+		}
+		if msg.MIssuer[i] == nil {
+			return nil, errors.New("issuer's share of random blind attribute is missing")
 		}
 		ms[i] = new(big.Int).Add(msg.MIssuer[i], miUser) // mi = mi' + mi", for i \in randomblind
 	}
